@@ -123,8 +123,10 @@ func (p *StageWorkerPool) worker(ctx context.Context) {
 				return
 			}
 
+			verifPtStage(p.stage, "worker.afterTake", item)
 			err := p.stage.Process(ctx, item)
 
+			verifPtStage(p.stage, "worker.afterProcess", item)
 			// Record metrics only for actual processing attempts (not context cancellation)
 			// and only if the shouldRecord check passes (or is nil)
 			if p.recordMetrics != nil &&
